@@ -13,6 +13,7 @@ class GramEval:
         self._busy = set()
         self._paths = {}
         self.ev = Evaluator(gram.which, self.unknown)
+        self.ev.set_helpers(self.g.get("helpers") or [])
 
     # ---- symbol values
     def term_value(self, name):
